@@ -231,3 +231,22 @@ def point_lambda(t):
 
 
 RULES['point_lambda'] = point_lambda
+
+
+def accumulate_sizes(t):
+    """R17: `std::accumulate(c.begin(), c.end(), size_t(0), [](const auto& a, const P& path) {return EXPR; })`
+    -> GNU statement expression with an index loop evaluating EXPR (a = running value, path = element)."""
+    n = 0
+    def repl(m):
+        nonlocal n
+        cont, init, acc, var, expr = m.group(1), m.group(2), m.group(3), m.group(4), m.group(5).strip()
+        expr = re.sub(r'\b' + var + r'\b', '(%s.data[vf_acc_i])' % cont, expr)
+        expr = re.sub(r'\b' + acc + r'\b', 'vf_acc', expr)
+        expr = re.sub(r'\.size\(\)', '.size', expr)
+        n += 1
+        return '({ size_t vf_acc = %s; for (size_t vf_acc_i = 0; vf_acc_i < %s.size; ++vf_acc_i) vf_acc = %s; vf_acc; })' % (init, cont, expr)
+    t = re.sub(r'std::accumulate\((\w+)\.begin\(\), \1\.end\(\), (?:size_t|\(size_t\))\((\w+)\),\s*\[\]\(const auto& (\w+), const \w+& (\w+)\)\s*\{\s*return ([^;]+);\s*\}\)', repl, t)
+    return t, n
+
+
+RULES['accumulate_sizes'] = accumulate_sizes
